@@ -3,6 +3,7 @@ import AdaVerif.Spec.Sets
 import AdaVerif.Model.Encode
 import Driver.UrlCmd
 import Driver.UspCmd
+import Driver.PunyCmd
 /-
 Model driver: same line protocol as harness/ada_harness.cpp, answered by the Lean Model/Spec.
 -/
@@ -48,6 +49,8 @@ def step (a : List String) : String :=
   | "spec.seq" :: input :: base :: rest => cmdSpecSeq input base rest
   | "usp" :: init :: ops => cmdUsp init ops
   | ["uspless", a, b] => cmdUspLess a b
+  | ["puny_enc", a] => cmdPunyEnc a
+  | ["puny_dec", a] => cmdPunyDec a
   | _ => "bad-op"
 
 partial def loop (h : IO.FS.Stream) (out : IO.FS.Stream) : IO Unit := do
